@@ -1,0 +1,43 @@
+//go:build verif
+
+package ardop
+
+import (
+	"bufio"
+	"io"
+)
+
+// Verification hooks (build tag "verif"): exports of unexported functions so that an external
+// harness can call them in-process. Add-only; nothing here is compiled without the tag.
+
+func VerifCRC16Sum(data []byte) uint16 { return crc16Sum(data) }
+
+// VerifParseCtrlMsg runs parseCtrlMsg and returns the command and the (dynamically typed) value.
+func VerifParseCtrlMsg(s string) (cmd string, value interface{}) {
+	msg := parseCtrlMsg(s)
+	return string(msg.cmd), msg.value
+}
+
+// VerifReadFrame runs readFrameOfType once. kind is 'c' (command frame, text in data),
+// 'd' (data frame) or 0 (error).
+func VerifReadFrame(fType byte, rd *bufio.Reader, isTCP bool) (kind byte, dataType string, data []byte, err error) {
+	f, err := readFrameOfType(fType, rd, isTCP)
+	if err != nil {
+		return 0, "", nil, err
+	}
+	switch x := f.(type) {
+	case cmdFrame:
+		return 'c', "", []byte(string(x)), nil
+	case dFrame:
+		return 'd', x.dataType, x.data, nil
+	}
+	return 0, "", nil, nil
+}
+
+// VerifWriteCtrlFrame runs writeCtrlFrame the way the TNC's writer goroutine calls it.
+func VerifWriteCtrlFrame(isTCP bool, w io.Writer, str string) error {
+	return writeCtrlFrame(isTCP, w, str)
+}
+
+// VerifIsChecksumMismatch reports whether err is the CRC mismatch error of the frame reader.
+func VerifIsChecksumMismatch(err error) bool { return err == ErrChecksumMismatch }
